@@ -161,8 +161,8 @@ def norm(t):
 
 
 def show(t):
-    if t == "any":
-        return "any"
+    if isinstance(t, str):
+        return t
     parts = []
     for x in sorted(t, key=str):
         if isinstance(x, tuple):
